@@ -67,6 +67,7 @@ func runC05(c *Ctx) {
 	c.St.Exhaustive = append(c.St.Exhaustive, fmt.Sprintf("exhaustive: all %d sequences of %d operations from a menu of %d on the heap {L1=[1,2,3], L2=[], O1={a:L2}}", total, k, len(menu)))
 
 	c.derivedCorners("C05")
+	c.lateDerived("C05")
 	c.typedSlices()
 	c.rawBytes("C05")
 
